@@ -40,7 +40,9 @@ def run(ctx, rep) -> None:
         v = verdicts[t['id']]
         if v['verdict'] != 'accepted':
             continue
-        if v['excuse'] != 'none':
+        if v['excuse'] == 'unconverged':
+            rep.violation(f'{t["id"]}: final state not converged (no known family): {t["final"]}', payload=t)
+        elif v['excuse'] != 'none':
             rep.classified(v['excuse'], f'{t["id"]}: final state not converged: {t["final"]}', payload=t)
         if t['patches_tail']:
             tail += 1
